@@ -172,7 +172,7 @@ func c15Run(t *testing.T, root string, N int, wl *iprange.IPRange, hist []c15Ev,
 func TestC15(t *testing.T) {
 	r := NewReporter(t)
 	defer r.Done()
-	r.Rule("Serve(FilterListener(LimitListener(listener, N), whitelist)) wired as in cmd/: N in {1,2,3} (and unlimited) x explicit-state breadth-first search over event histories {arrival inside / outside the whitelist, client i sends a request, client i closes} up to a depth with <= 4N live clients, deduplicated by the abstract state (per client: in/out, closed, requests sent, served, finished); invariants evaluated in every state + capacity-recovery probe from every state; every pattern of 4 arrivals whose connection Close reports an error; plus whitelist spec x source address grid over 127.0.0.0/8 and ::1; distinct by abstract state")
+	r.Rule("Serve(FilterListener(LimitListener(listener, N), whitelist)) wired as in cmd/: N in {1,2,3} (and unlimited) x explicit-state breadth-first search over event histories {arrival inside / outside the whitelist, client i sends a request, client i closes} up to a depth with <= 4N live clients, deduplicated by the abstract state (per client: in/out, closed, requests sent, served, finished); invariants evaluated in every state + capacity-recovery probe from every state; every pattern of 4 arrivals whose connection Close reports an error; plus whitelist spec x source address grid over 127.0.0.0/8 and ::1; the real binary with both flags, and with a client limit under a descriptor limit chosen so that accept(2) fails while a client is served (capacity must come back); distinct by abstract state")
 	w := newWorld(t, "srv/root")
 	defer w.Cleanup()
 	w.File("a.txt", 10, 1)
@@ -484,6 +484,88 @@ func TestC15(t *testing.T) {
 			}
 			b.Stop()
 			r.Outcome("bin-admission-ok")
+		}
+		// accept(2) failing for lack of descriptors while a client limit is set: the failed attempts must not use up
+		// slots. The descriptor limit is raised one by one until the first client's connection and file just fit and
+		// the second client's accept fails; then the first leaves and both slots must be usable again.
+		w.File("held.bin", 3000, 9)
+		reached := false
+		for n := 6; n <= 24 && !reached; n++ {
+			b, err := startBinLimited([]string{"server", "--listen-addr=127.0.0.1:0", "--root=" + w.Root, "--max-clients=2", "--read-timeout=5m"}, cleanEnv(logDir), w.Dir, filepath.Join(logDir, "server.log"), 5*time.Second, n)
+			if err != nil {
+				if b != nil {
+					b.Stop()
+				}
+				continue // too few descriptors to start at all
+			}
+			func() {
+				defer b.Stop()
+				c1, err := dialFrom(b.Addr, "", 5*time.Second)
+				if err != nil {
+					return
+				}
+				defer c1.Close()
+				if ok, _, _ := c1.statProbe("/", 2*time.Second); !ok {
+					return
+				}
+				if resp, err := c1.exchange(mkReq(opOpenFile, "/held.bin"), szOpenFile, 5*time.Second); err != nil || int64(be64(resp)) != 3000 {
+					return // the table is already full: one more descriptor is needed for the scenario
+				}
+				c1.exchange(mkReq(opOpenDir, "/"), 4, 5*time.Second)
+				c2, err := dialFrom(b.Addr, "", 5*time.Second)
+				if err != nil {
+					return
+				}
+				defer c2.Close()
+				if ok, _, _ := c2.statProbe("/", 700*time.Millisecond); ok {
+					return // still room in the table
+				}
+				for try := 0; try < 20 && !strings.Contains(b.Log(), "Accept failed"); try++ {
+					time.Sleep(100 * time.Millisecond)
+				}
+				if !strings.Contains(b.Log(), "Accept failed") {
+					return
+				}
+				reached = true
+				r.Trace(1)
+				r.State(sprintf("real binary: accept fails for lack of descriptors (limit %d) with --max-clients=2", n))
+				fail := func(sig, msg string) {
+					r.Violation("C15:bin:accept-errors:"+sig, sprintf("real binary with --max-clients=2 and %d descriptors, after accept(2) failed repeatedly while the first client held the last descriptors: %s | %s", n, msg, lastLines(b.Log(), 3)), map[string]any{"descriptors": n})
+				}
+				time.Sleep(1500 * time.Millisecond) // several failed attempts
+				c1.Close()
+				if resp, err := c2.readN(szStat, 30*time.Second); err != nil || len(resp) != szStat {
+					fail("capacity-lost", "the first client left, the waiting client was not answered within 30 s")
+					return
+				}
+				c3, err := dialFrom(b.Addr, "", 5*time.Second)
+				if err != nil {
+					fail("refused", "third client could not connect: "+err.Error())
+					return
+				}
+				defer c3.Close()
+				if ok, _, _ := c3.statProbe("/", 30*time.Second); !ok {
+					fail("capacity-lost", "with one client being served, a second one was not answered within 30 s although the limit is 2")
+					return
+				}
+				c4, err := dialFrom(b.Addr, "", 5*time.Second)
+				if err == nil {
+					defer c4.Close()
+					if ok, _, _ := c4.statProbe("/", 2*time.Second); ok {
+						fail("limit-exceeded", "a third client was answered while two others are being served")
+						return
+					}
+					c2.Close()
+					if resp, err := c4.readN(szStat, 30*time.Second); err != nil || len(resp) != szStat {
+						fail("capacity-lost", "after one of two clients left, the waiting client was not answered within 30 s")
+						return
+					}
+				}
+				r.Outcome("bin-accept-errors-keep-capacity")
+			}()
+		}
+		if !reached {
+			r.Outcome("bin-accept-errors-not-reached")
 		}
 		os.RemoveAll(logDir)
 	}
